@@ -12,13 +12,45 @@ import TdModel.Lemmas.C17
 namespace TdModel.C17
 open TdModel TdModel.Bin TdModel.Codec
 
-/-- Tie: the constants and guards read from the current source are the specification's: frame limit
-2^24, abridged switch at 127 words with marker 0x7f, the guards of the D6 repair present
-(`n<<2 > maxMessageSize` before `ResetN`; `n < 12` before `Expand`), envelope allowances 12 and 3,
-protocol tags `ef`, `eeeeeeee`, `dddddddd`. -/
-theorem cfg_is_spec : cfg = Cfg.spec := by decide
+/-- Tie: every decision and arithmetic expression translated from the current source (length check
+of `readLen` with its envelope, the abridged switch `>= 127` and its guard `n<<2 > maxMessageSize`
+before `ResetN(n<<2)`, the guard `n < 12` of the full reader before `Expand(n-4)`, its slice bounds
+`[4:n]`, `[0:n-4]`, `[8:n-4]`, `payloadLength = n-12`, padding `% 4`, envelope allowances 12 and 3,
+protocol tags) *means* what the specification says — proved by arithmetic for all arguments, so an
+equivalent rewrite of the Go expressions keeps the proof and a change of meaning breaks it. -/
+theorem cfg_is_spec : cfg.readerPart = Cfg.spec := by
+  have tm : ∀ (a : Nat), Int.tmod (a : Int) 4 = ((a % 4 : Nat) : Int) := fun a => (Int.ofNat_tmod a 4).symm
+  apply Cfg.ext
+  case lenRejects => funext n e; simp only [cfg, Cfg.readerPart, Cfg.spec, Facts.C17.lenRejects]; rw [Bool.eq_iff_iff]; simp; omega
+  case outRejects => rfl
+  case abrShort => rfl
+  case abrLong => funext n; simp only [cfg, Cfg.readerPart, Cfg.spec, Facts.C17.abrLong]; rw [Bool.eq_iff_iff]; simp; omega
+  case abrRejects => funext n; simp only [cfg, Cfg.readerPart, Cfg.spec, Facts.C17.abrRejects]; rw [Bool.eq_iff_iff]; simp; omega
+  case fullRejects => funext n; simp only [cfg, Cfg.readerPart, Cfg.spec, Facts.C17.fullRejects]; rw [Bool.eq_iff_iff]; simp; omega
+  case misaligned => rfl
+  case isCode => funext n; simp only [cfg, Cfg.readerPart, Cfg.spec, Facts.C17.notCode]; rw [Bool.eq_iff_iff]; simp; omega
+  case abrWords => rfl
+  case abrBytes => funext n; simp only [cfg, Cfg.readerPart, Cfg.spec, Facts.C17.abrBytes]; try omega
+  case fullExpand => funext n; simp only [cfg, Cfg.readerPart, Cfg.spec, Facts.C17.fullExpand]; try omega
+  case fullInnerHi => funext n; simp only [cfg, Cfg.readerPart, Cfg.spec, Facts.C17.fullInnerHi]; try omega
+  case fullPayload => funext n; simp only [cfg, Cfg.readerPart, Cfg.spec, Facts.C17.fullPayload]; try omega
+  case fullCrcHi => funext n; simp only [cfg, Cfg.readerPart, Cfg.spec, Facts.C17.fullCrcHi]; try omega
+  case fullCopyHi => funext n; simp only [cfg, Cfg.readerPart, Cfg.spec, Facts.C17.fullCopyHi]; try omega
+  case fullWire => rfl
+  case padOf => rfl
+  case padStrip => funext n; simp only [cfg, Cfg.readerPart, Cfg.spec, Facts.C17.padStrip, tm]; try omega
+  case fullInnerLo => funext n; simp only [cfg, Cfg.readerPart, Cfg.spec, Facts.C17.fullInnerLo]
+  case fullCrcLo => funext n; simp only [cfg, Cfg.readerPart, Cfg.spec, Facts.C17.fullCrcLo]
+  case fullCopyLo => funext n; simp only [cfg, Cfg.readerPart, Cfg.spec, Facts.C17.fullCopyLo]
+  case abrMark => rfl
+  case fullEnvelope => decide
 
-theorem frame_limit_is_16MiB : cfg.maxMsg = 2 ^ 24 := by decide
+  case padEnvelope => decide
+  case tagAbridged => rfl
+  case tagIntermediate => rfl
+  case tagPadded => rfl
+
+theorem frame_limit_is_16MiB : Facts.C17.maxMessageSize = 2 ^ 24 := by decide
 
 /-- The readers reach the stream through `io.ReadFull` only (call-site fact), which is what makes
 the model's "take n of the whole remaining stream" independent of the chunking of reads. -/
@@ -28,27 +60,27 @@ theorem reads_only_via_ReadFull : Facts.C17.readsOnlyViaReadFull = true := by de
 stream, `Codec.Read` returns a frame or an error: none of Go's slice-bounds / makeslice checks fails. -/
 theorem read_never_panics (crc : Bytes → Nat) (k : Kind) (seq : Int) (s : Bytes) :
     (read cfg crc k seq s).out.isPanic = false := by
-  rw [cfg_is_spec]; exact (read_safe crc k seq s).1
+  rw [read_readerPart, cfg_is_spec]; exact (read_safe crc k seq s).1
 
 /-- **Allocation bound.**  Every buffer length requested while reading one frame is at most the
 frame limit plus the full protocol's envelope (length, seqno, crc, and the 4-byte scratch copy of the
 length): `2^24 + 16`. -/
 theorem read_alloc_le (crc : Bytes → Nat) (k : Kind) (seq : Int) (s : Bytes) (a : Nat)
     (h : a ∈ (read cfg crc k seq s).allocs) : a ≤ 2 ^ 24 + 16 := by
-  rw [cfg_is_spec] at h; exact (read_safe crc k seq s).2 a h
+  rw [read_readerPart, cfg_is_spec] at h; exact (read_safe crc k seq s).2 a h
 
 /-- Abridged never requests more than the frame limit itself (the D6 repair: pinned tree 64 MiB). -/
 theorem abridged_alloc_le (s : Bytes) (a : Nat) (h : a ∈ (readAbridged cfg s).allocs) : a ≤ 2 ^ 24 := by
-  rw [cfg_is_spec] at h; exact (readAbridged_safe s).2 a h
+  rw [readAbridged_readerPart, cfg_is_spec] at h; exact (readAbridged_safe s).2 a h
 
 /-- Intermediate never requests more than the frame limit. -/
 theorem intermediate_alloc_le (s : Bytes) (a : Nat) (h : a ∈ (readIntermediate cfg false s).allocs) :
     a ≤ 2 ^ 24 := by
-  rw [cfg_is_spec] at h; exact (readIntermediate_plain_safe s).2 a h
+  rw [readIntermediate_readerPart, cfg_is_spec] at h; exact (readIntermediate_plain_safe s).2 a h
 
 /-- Padded intermediate: frame limit plus at most 3 bytes of padding. -/
 theorem padded_alloc_le (s : Bytes) (a : Nat) (h : a ∈ (readPadded cfg s).allocs) : a ≤ 2 ^ 24 + 3 := by
-  rw [cfg_is_spec] at h; exact (readPadded_safe s).2 a h
+  rw [readPadded_readerPart, cfg_is_spec] at h; exact (readPadded_safe s).2 a h
 
 /-! ### The pinned tree (before the `fix:` commit) violated the property (defect D6) -/
 
